@@ -319,11 +319,24 @@ def run_fault(rng):
     pager_mode = rng.random() < 0.4
     args = gen.to_args(o) + ['--paging', 'always' if pager_mode else 'never']
     env = {'WRITEFAULT_N': '0'}
+    # input mode: stdin, or a wrapped command / two-file comparison (stub git prints the diff)
+    inmode = rng.choice(['stdin', 'stdin', 'delta-git', 'delta-files'])
+    stdin_none = False
+    if inmode != 'stdin':
+        env['VERIF_STUB_OUT'] = runner.write_file('c18_fault_stub', data)
+        if inmode == 'delta-git':
+            args = args + ['git', 'show']
+        else:
+            fa = runner.write_file('c18_fa.txt', 'a\n')
+            fb = runner.write_file('c18_fb.txt', 'b\n')
+            args = args + [fa, fb]
+        data = b''
+        stdin_none = True
     wlog = os.path.join(runner.workdir(), 'tmp', 'c18wf.%d' % int(time.time() * 1e6))
     env['WRITEFAULT_LOG'] = wlog
     if pager_mode:
         env['DELTA_PAGER'] = 'mypager'
-    ref = run_plain(args, data, env=env, preload=SHIM)
+    ref = run_plain(args, data, env=env, preload=SHIM, stdin_is_none=stdin_none)
     outs = []
     try:
         nwrites = int(open(wlog).read().strip())
@@ -331,10 +344,12 @@ def run_fault(rng):
         return [inconclusive('write counter not produced by the shim')]
     if crashmod.classify(ref) is not None or ref.rc != 0:
         return [inconclusive('fault-free run failed')]
-    sets = {'sub': ['fault:' + ('pager' if pager_mode else 'stdout')]}
+    sets = {'sub': ['fault:' + ('pager' if pager_mode else 'stdout') + ':' + inmode]}
+    if nwrites < 1:
+        return [inconclusive('no write call seen')]
     for n in range(1, nwrites + 1):
         env['WRITEFAULT_N'] = str(n)
-        r = run_plain(args, data, env=env, preload=SHIM)
+        r = run_plain(args, data, env=env, preload=SHIM, stdin_is_none=stdin_none)
         c = crashmod.classify(r)
         key = None
         if c is not None:
@@ -353,7 +368,7 @@ def run_fault(rng):
             outs.append(violated(key, what + ' (%s mode)' % ('pager' if pager_mode else 'stdout'), run=r, sets=sets,
                                  extra={'fault_at': n, 'writes': nwrites}))
         else:
-            outs.append(held(sig=('fault', pager_mode, n, len(data), tuple(sorted(o))), counters={'fault_points': 1}, sets=sets,
+            outs.append(held(sig=('fault', pager_mode, n, len(data), tuple(sorted(o))), counters={'fault_points': 1, 'fault_cases': 1 if n == 1 else 0}, sets=sets,
                              sample={'mode': 'pager' if pager_mode else 'stdout', 'fault_at_write': n, 'of': nwrites} if n == 1 else None))
     try:
         os.unlink(wlog)
@@ -388,9 +403,22 @@ def run_closed(rng):
         # real pipe closed by the reader after k bytes
         k = rng.choice([0, 1, 100, 4096, 70000])
         exe = runner.binary()
-        env = runner.base_env()
-        p = subprocess.Popen([exe, '--paging', 'never'] + gen.to_args(o), stdin=subprocess.PIPE, stdout=subprocess.PIPE,
+        sub_mode = rng.random() < 0.4
+        extra = []
+        if sub_mode:
+            # small or large output of a wrapped command, reader gone (possibly before anything is written)
+            small = rng.random() < 0.5
+            stub = runner.write_file('c18_closed_stub', data[:3000] if small else data)
+            env = runner.base_env({'VERIF_STUB_OUT': stub}, path_prefix=BIN)
+            extra = rng.choice([['git', 'show'], ['git', 'diff'], [runner.write_file('c18_ca.txt', 'a\n'), runner.write_file('c18_cb.txt', 'b\n')]])
+            if small:
+                k = 0
+        else:
+            env = runner.base_env()
+        p = subprocess.Popen([exe, '--paging', 'never'] + gen.to_args(o) + extra, stdin=subprocess.PIPE, stdout=subprocess.PIPE,
                              stderr=subprocess.PIPE, env=env, cwd=os.path.join(runner.workdir(), 'cwd'))
+        if sub_mode and k == 0:
+            p.stdout.close()
         import threading
 
         def feed():
@@ -407,7 +435,8 @@ def run_closed(rng):
             if not chunk:
                 break
             got += chunk
-        p.stdout.close()
+        if not p.stdout.closed:
+            p.stdout.close()
         try:
             p.wait(timeout=30)
             timed_out = False
@@ -432,8 +461,8 @@ def run_closed(rng):
         r.pty_size = (24, 80)
         r.stdin = data if len(data) < 100000 else data[:1000]
         r.out = got[:2000]
-        sets['sub'] = ['closed-pipe']
-        label = ('closed-pipe', k)
+        sets['sub'] = ['closed-pipe' + (':subcommand' if sub_mode else '')]
+        label = ('closed-pipe' + (':subcommand' if sub_mode else ''), k)
     c = crashmod.classify(r)
     if c is not None:
         return [violated('c18:reader-gone:crash:' + c['signature'], '%s: %s' % (label, c['detail']), run=r, sets=sets)]
@@ -467,7 +496,7 @@ EXHAUSTIVE_SCOPE = 'for every case of the write-fault sub-monitor, one fault at 
 
 def floors(ctx, agg):
     p = []
-    for k, m in (('status_runs', 150), ('pager_runs', 100), ('wait_runs', 15), ('fault_points', 300), ('reader_gone_runs', 40)):
+    for k, m in (('status_runs', 150), ('pager_runs', 100), ('wait_runs', 15), ('fault_cases', 30), ('reader_gone_runs', 40)):
         if agg.counters.get(k, 0) < m:
             p.append('fewer than %d %s' % (m, k))
     return p
